@@ -50,6 +50,43 @@ Rules
 {hint}
 """
 
+NEUTRAL = """You are helping to evaluate a verification harness for the Python library in the git worktree {wt}
+(a robotics toolkit: SE(3) transform class `tm`, serial arms, Stewart platforms, a Numba port of Modern Robotics, RRT*
+planning, a message router, a pretty-printer).  You do NOT see the harness.  The harness claims to decide the property below
+by observing executions, and it must NEVER raise an alarm on code for which the property holds.  Your job: make realistic
+changes to the library source that KEEP the property true but are likely to trip an over-strict or implementation-coupled
+checker, and demonstrate that the property still holds.
+
+PROPERTY {pid} - {title}
+Statement: {statement}
+Quantified over: {quant}
+Code the property is anchored in: {files}
+
+Rules
+1. Work only inside {wt}.  Do not read or touch /repo or /verif.  Python: /venv/bin/python with PYTHONPATH={wt}.  Do NOT use
+   `git stash` (it is shared between worktrees); use `git diff > p.diff`, `git apply -R p.diff`, `git apply p.diff`.
+2. Make 3 to 6 independent behaviour-preserving (with respect to the PROPERTY) changes in the anchored code, each something a
+   maintainer could plausibly commit.  Exploit every freedom the statement leaves, for example: rename or restructure PRIVATE
+   attributes and helper methods (names starting with an underscore) and update all their uses; change internal representations,
+   caching, evaluation order, loop structure, temporary copies; where several answers satisfy the statement (a different valid IK
+   solution, another tie-breaking rule, the other sign of a rotation vector at exactly a half turn, a different but correct
+   numerical route within the stated tolerances, different wording/whitespace of printed output, different exception messages)
+   return a different valid one; change behaviour OUTSIDE the quantified domain (invalid inputs, out-of-range arguments).
+   Public names, signatures and documented return shapes/types stay as they are.  Nothing may violate the property inside its
+   quantified domain, and nothing may break any OTHER documented behaviour of the public API that a user relies on.
+3. The library's test-suite must give the same result before and after.  Command (shared machine - keep the thread limits, run
+   the FULL suite at most twice in total; 5 socket tests in tests/test_interfaces_communications.py fail before and after):
+     cd {wt} && NUMBA_NUM_THREADS=2 OMP_NUM_THREADS=2 OPENBLAS_NUM_THREADS=2 PYTHONPATH={wt} /venv/bin/python -m pytest -q -p no:cacheprovider --timeout=900 tests
+4. Deliverables in {wt}/_neutral/ :
+   - patch.diff : `git diff -- basic_robotics` of all your changes together (must apply with `git apply` on the unchanged worktree)
+   - demo.py    : a plain script using only the PUBLIC API that checks the property itself on a few hundred inputs from its
+                  quantified domain and exits 0 both on the unchanged code and with your changes (verify both).
+   - meta.json  : {{"property": "{pid}", "changes": ["one line per change: what and why it keeps the property"], "freedom_used": "...", "files_changed": [...], "tests_run": "..."}}
+   Leave the worktree with the patch applied.
+5. Final report: the list of changes, why each keeps the property, the test-suite result before/after, the demo outcome before/after.
+{hint}
+"""
+
 HINTS = {
     "C17": "Hint: Numba honours NUMBA_BOUNDSCHECK=1 and NUMBA_DISABLE_JIT=1; compiled kernels have a `.py_func` attribute with the interpreted source.",
     "C02": "Hint: the reference implementation `modern_robotics` (1.1.1) is importable in /venv.",
@@ -57,24 +94,28 @@ HINTS = {
 
 
 def main():
+    neutral = "--neutral" in sys.argv
+    if neutral:
+        sys.argv.remove("--neutral")
     props = {}
     for line in open(os.path.join(VERIF, "properties.jsonl")):
         p = json.loads(line)
         props[p["id"]] = p
     for pid in sys.argv[1:]:
         p = props[pid]
-        wt = "/tmp/wt_" + pid
+        wt = ("/tmp/wn_" if neutral else "/tmp/wt_") + pid
         if not os.path.exists(wt):
             subprocess.run(["git", "-C", "/repo", "worktree", "add", "--detach", wt, "HEAD"], check=True, stdout=subprocess.DEVNULL)
         earlier = []
         for m in sorted(glob.glob(os.path.join(VERIF, "seeded", pid + "_agent*", "meta.json"))):
             s = json.load(open(m)).get("summary") or ""
             earlier.append("   - " + s[:400].replace("\n", " "))
-        txt = TEMPLATE.format(wt=wt, pid=pid, title=p["title"], statement=p["statement"], quant=p["quantifier"]["text"], why=p["why_tests_cant"],
+        txt = (NEUTRAL if neutral else TEMPLATE).format(wt=wt, pid=pid, title=p["title"], statement=p["statement"], quant=p["quantifier"]["text"], why=p["why_tests_cant"],
                               files=", ".join(p["anchors"].get("files", [])), earlier="\n".join(earlier) or "   (none)", hint=HINTS.get(pid, ""))
-        with open("/tmp/prompt_%s.txt" % pid, "w") as f:
+        pf = "/tmp/%s_%s.txt" % ("nprompt" if neutral else "prompt", pid)
+        with open(pf, "w") as f:
             f.write(txt)
-        print(pid, wt, "/tmp/prompt_%s.txt" % pid)
+        print(pid, wt, pf)
 
 
 if __name__ == "__main__":
